@@ -252,9 +252,13 @@ def gen_ops(rng, cfg, nops, invalid_rate=0.0, blocks=True, close=True, style=Non
             tag += total
         else:
             ln = max(1, rng.choice(lens))
-            if rng.random() < 0.03:
-                ln = 0
             gap = far(max(0, rng.choice(gapc)))
+            if rng.random() < 0.08:
+                # an empty array is accepted and changes nothing, whatever index it names (also one ahead of
+                # the cursor, in the file that is open)
+                ln = 0
+                if rng.random() < 0.6:
+                    gap = rng.choice([1, 2, 3, max(1, to_edge(cur) - 1)])
             ns = cur + gap
             if bad and cur > 0:
                 ns = cur - rng.choice([1, 1, 2, cur])
